@@ -1355,6 +1355,8 @@ def lib_tile(ex, args, kwargs, pc):
     a = args[0]
     reps = kwargs.get("reps", args[1] if len(args) > 1 else None)
     reps = list(reps) if isinstance(reps, (tuple, list)) else [reps]
+    if len(reps) > len(a.shape):
+        raise Unsupported("tile with more repetition counts than axes (numpy prepends axes)")
     reps = [1] * (len(a.shape) - len(reps)) + reps
     shape = [s * r if concrete(s) and concrete(r) else zint(s) * zint(r) for s, r in zip(a.shape, reps)]
 
@@ -1832,6 +1834,8 @@ def lib_hstack(ex, args, kwargs, pc):
     arrs = list(args[0])
     if all(len(a.shape) == 2 for a in arrs):
         return lib_concatenate(ex, [arrs], {"axis": 1}, pc)
+    if not all(len(a.shape) == 1 for a in arrs):
+        raise Unsupported("hstack of arrays of rank > 2 or of mixed ranks")
     return lib_concatenate(ex, [arrs], {"axis": 0}, pc)
 
 
